@@ -116,7 +116,17 @@ type vScriptEv struct {
 //	 9 cascade: a fixed 19-event DAG over 4 validators found by random search: with weights 3,3,2,2 the last event
 //	            is a root of several frames at once; one of its earlier frame slots decides frame 1 and frame 2 is
 //	            decided in the cascade that follows (re-processing of the known roots)
+//
+// 10 multislot: a fixed 14-event DAG over 4 validators found by random search: with weights 2,2,2,1 a root of
+//
+//	several frames arrives while an election is still open, and a later root looks up the vote of
+//	its lower frame slot
 func vScript(kind, V, rounds int, seed uint32) []vScriptEv {
+	if kind == 10 {
+		return []vScriptEv{{3, -1, nil}, {1, -1, []int{0}}, {2, -1, []int{1}}, {0, -1, []int{1, 2, 0}}, {1, 1, []int{0}},
+			{3, 0, []int{3, 4, 2}}, {0, 3, []int{4, 2, 5}}, {1, 4, []int{6, 2, 5}}, {0, 6, []int{7, 2}}, {2, 2, []int{8, 7, 5}},
+			{1, 7, []int{9, 5}}, {2, 9, []int{5}}, {3, 5, []int{8, 10, 11}}, {0, 8, []int{10, 11}}}
+	}
 	if kind == 9 {
 		return []vScriptEv{{1, -1, nil}, {2, -1, []int{0}}, {3, -1, []int{0}}, {3, 2, []int{0, 1}}, {1, 0, []int{3}},
 			{0, -1, []int{4, 1, 3}}, {2, 1, []int{5}}, {3, 3, []int{5, 4, 6}}, {0, 5, []int{4, 6, 7}}, {2, 6, []int{8, 4, 7}},
@@ -372,7 +382,8 @@ type vRefVote struct {
 func (r *vRef) decideAll() (res []int) {
 	V := r.d.V
 	for d := idx.Frame(1); ; d++ {
-		votes := make([][]vRefVote, r.n) // [root][subject]
+		// [frame slot][root][subject]: an event that is a root of several frames votes once per frame slot
+		votesAt := map[idx.Frame][][]vRefVote{}
 		decided := make([]vRefVote, V)
 		atropos := -1
 	frames:
@@ -381,6 +392,9 @@ func (r *vRef) decideAll() (res []int) {
 			if len(rts) == 0 {
 				break
 			}
+			votes := make([][]vRefVote, r.n)
+			votesAt[f] = votes
+			prevVotes := votesAt[f-1]
 			for _, rt := range rts {
 				var prev []int
 				for _, y := range r.roots(f - 1) {
@@ -403,7 +417,7 @@ func (r *vRef) decideAll() (res []int) {
 					} else {
 						var yw, nw pos.Weight
 						for _, y := range prev {
-							pv := votes[y][s]
+							pv := prevVotes[y][s]
 							if pv.yes {
 								yw += r.w[r.d.script[y].creator]
 								v.obs = pv.obs
@@ -647,3 +661,6 @@ func VerifH_FS_tripleV3()   { verifFS(5, 3, 8, 1) }
 func VerifH_FS_tripleV4()   { verifFS(5, 4, 7, 1) }
 func VerifH_FS_meshV4()     { verifFS(0, 4, 5, 1) }
 func VerifH_FS_lcgV4()      { verifFS(4, 4, 7, 3) }
+
+func VerifH_FS_cascadeV4()   { verifFS(9, 4, 0, 1) }
+func VerifH_FS_multislotV4() { verifFS(10, 4, 0, 1) }
